@@ -372,6 +372,7 @@ var specC36 = vstat.Spec[c36Case]{
 	Gen:         genC36,
 	Check:       checkC36,
 	Inflight:    true,
+	Confirm:     true,
 }
 
 func TestC36(t *testing.T)       { vstat.Check(t, specC36) }
